@@ -45,6 +45,11 @@ class C01(core.Prop):
             {'frame': {'nrows': 2, 'cols': [{'name': 't', 'fam': 'datetime-tz', 'cells': [cx.DATE_POOL[0], cx.DATE_POOL[1]]}]}},
             {'frame': {'nrows': 3, 'cols': [{'name': 's', 'fam': 'string', 'cells': ['a', None, 'b']}]}},
             {'frame': {'nrows': 2, 'cols': [{'name': 'f', 'fam': 'float64', 'cells': [float('inf'), 1.0]}]}},
+            # integers that no double represents exactly (beyond 2**53): bounds must not pass through floating point
+            {'frame': {'nrows': 3, 'cols': [{'name': 'id', 'fam': 'int64', 'cells': [2 ** 53 + 1, 5, 2 ** 62 + 1]},
+                                            {'name': 'lo', 'fam': 'int64', 'cells': [-2 ** 63 + 1, -2 ** 53 - 1, -7]}]}},
+            {'frame': {'nrows': 2, 'cols': [{'name': 'u', 'fam': 'uint64', 'cells': [2 ** 64 - 1, 2 ** 63 + 3]},
+                                            {'name': 'n', 'fam': 'Int64', 'cells': [2 ** 63 - 1, None]}]}},
         ]
 
     def gen_case(self, rng, i):
